@@ -42,6 +42,15 @@ const BIG: u64 = 1 << 30;
 
 /// The shape of a byte string as Stream.tla wants it (see the comment in the module).
 pub fn shape_of(data: &[u8], opt: Opt, memlimit: Option<u64>, inc: bool) -> Value {
+    shape_of_sink(data, opt, memlimit, inc, None)
+}
+
+/// `sink_fail_k`: the sink's k-th write call fails.  The circular window hands itself over to the sink each time the
+/// output reaches a multiple of the dictionary size, so the symbol that produces output byte k * dict cannot be
+/// committed: in the vocabulary of Stream.tla it is an "errReal" symbol (fine in the dry run, fails when committed) -
+/// the same kind a memory limit or an out-of-window distance gives.  The model's Latch / NoZeroProgress therefore
+/// cover failures caused by the sink as well, and the recorded calls of such runs are validated like any others.
+pub fn shape_of_sink(data: &[u8], opt: Opt, memlimit: Option<u64>, inc: bool, sink_fail_k: Option<u64>) -> Value {
     let hl = opt.header_len();
     let hdr_err = !data.is_empty() && data[0] >= 225;
     let mut syms: Vec<Value> = vec![];
@@ -62,6 +71,15 @@ pub fn shape_of(data: &[u8], opt: Opt, memlimit: Option<u64>, inc: bool) -> Valu
             for (i, c) in r.costs.iter().enumerate() {
                 let is_eos = r.syms[i] == Sym::Eos;
                 let new_co = co + c.out as u64;
+                if let Some(k) = sink_fail_k {
+                    let f = k * dict.max(4096);
+                    if co < f && new_co >= f {
+                        cb += c.bytes as u64;
+                        syms.push(json!({"c": c.bytes, "o": 0, "k": "errReal", "z": r.zs[i], "cb": cb, "co": co}));
+                        cut_at = Some(i);
+                        break;
+                    }
+                }
                 // memory limit: the window needs min(dict, produced) bytes
                 if let Some(m) = memlimit {
                     if new_co.min(dict) > m {
@@ -438,7 +456,7 @@ pub fn check_case(c: &StreamCase, prop: &str, rep: &mut Report, trace: &mut Opti
     rep.count(&format!("oneshot:{:?}", one.verdict));
     if let Some(tr) = trace.as_mut() {
         if !t.events.is_empty() && t.verdict != Verdict::Panic {
-            tr.push(json!({"ev": "Reset", "sd": shape_of(&data, c.opt, c.memlimit, c.allow_incomplete)}).to_string());
+            tr.push(json!({"ev": "Reset", "sd": shape_of_sink(&data, c.opt, c.memlimit, c.allow_incomplete, c.sink_fail.first().map(|k| *k as u64))}).to_string());
             for ev in &t.events {
                 tr.push(ev.to_string());
             }
@@ -1320,20 +1338,24 @@ pub fn run_c16(prop: &str, seed: u64, nstreams: usize, nsyms: usize, trace_path:
         for cuts in [gen_cuts(&mut rng, &gg, i), vec![hl + 5], vec![hl, hl + 5, hl + 6], (1..data.len()).collect::<Vec<usize>>()] {
             let cuts: Vec<usize> = cuts.into_iter().filter(|c| *c <= data.len()).collect();
             let c = StreamCase { data_hex: hex(&data), opt, memlimit: None, allow_incomplete: i % 4 == 3, cuts, origin: format!("size-{}-then-more-symbols", sz), mode: "c16".into(), extra_writes: vec![], sink_fail: vec![] };
-            let mut none = None;
-            check_case(&c, prop, rep, &mut none);
+            check_case(&c, prop, rep, &mut trace);
         }
     }
     // a write that fails because the SINK failed (the hand-over of a full window: its k-th write call returns an error
     // once, of kind Other or WouldBlock, and works again afterwards) is "a write that has returned an error" like any
     // other: the caller goes on writing in small pieces, nothing more may be consumed or delivered, finish fails
-    for which in 0..2usize {
+    for which in 0..3usize {
         let props = Props { lc: 3, lp: 0, pb: 2 };
         let mut prog: Vec<Sym> = vec![];
         let mut total = 0usize;
         let mut k = 0u32;
         while total < 13500 {
-            if which == 1 && k % 9 == 8 {
+            if which == 2 && k >= 12 {
+                // few symbols, long copies: a shape small enough for the recorded calls to be validated by TLC
+                let n = 273 - (k % 7);
+                prog.push(Sym::Match { d: 1 + (k as u64 % 11), n });
+                total += n as usize;
+            } else if which == 1 && k % 9 == 8 {
                 prog.push(Sym::Match { d: 3, n: 2 + (k % 5) });
                 total += 2 + (k % 5) as usize;
             } else {
@@ -1349,13 +1371,17 @@ pub fn run_c16(prop: &str, seed: u64, nstreams: usize, nsyms: usize, trace_path:
         for failk in 1..=3usize {
             for kind in 0..2usize {
                 for step in [1usize, 3, 7, 64, 1500] {
-                    if (failk + kind + step + which) % 2 == 1 && step != 3 {
+                    if (failk + kind + step + which) % 2 == 1 && step != 3 && which != 2 {
+                        continue;
+                    }
+                    if which == 2 && step > 7 {
                         continue;
                     }
                     let cuts: Vec<usize> = (1..data.len()).filter(|x| x % step == 0).collect();
                     let c = StreamCase { data_hex: hex(&data), opt: Opt::ReadFromHeader, memlimit: None, allow_incomplete: false, cuts, origin: format!("sink-write#{}-fails-once-kind{}", failk, kind), mode: "c16".into(), extra_writes: vec![], sink_fail: vec![failk, kind] };
                     let mut none = None;
-                    check_case(&c, prop, rep, &mut none);
+                    // (the runs with few calls are validated by TLC: the failing hand-over is an "errReal" symbol of the shape)
+                    check_case(&c, prop, rep, if which == 2 { &mut trace } else { &mut none });
                 }
             }
         }
